@@ -590,7 +590,11 @@ def _find_def(body, name):
 def load_function(qualname: str, which: Optional[int] = None):
     """qualname: '<module>:<Class>.<func>' or '<module>:<func>.<locals>.<inner>'.
     For property setters use '<Class>.<name>@setter'.  Returns (node, module_name)."""
-    qualname = qualname.split("#")[0]  # `<qualname>#<variant>`: a second contract binding of the same real function
+    # `<qualname>#<variant>`: a second contract binding of the same real function; a numeric variant
+    # selects among same-named definitions in source order (`if c: async def f ... else: def f ...`)
+    qualname, _, variant = qualname.partition("#")
+    if which is None and variant.isdigit():
+        which = int(variant)
     modname, path = qualname.split(":")
     tree = load_module(modname)
     body = tree.body
